@@ -21,7 +21,10 @@ def decRt (j : Json) : R (Option RtExpr) :=
   | _ => do
     let rs ← decNatList (← fld j "r")
     let ps ← asStrList (← fld j "p")
-    pure (some { rs, ps })
+    let lits ← match j.getObjVal? "l" with
+      | .ok l => asStrList l
+      | .error _ => pure []
+    pure (some { rs, ps, lits })
 
 def decItem (j : Json) : R Item := do
   let k ← fldStr j "k"
